@@ -9,6 +9,7 @@ harness/solids.cc).  `Holds l p` := ∀ (sense, s) ∈ l, (s.quadric p < 0 ↔ s
 Helper lemmas: Lemmas/Solids.lean, SolidsPrim.lean, SolidsBox.lean, SolidsObj.lean.
 -/
 import CelerVerif.Lemmas.SolidsZone
+import CelerVerif.Lemmas.SurfSoftEq
 import CelerVerif.Props.C09
 
 namespace CelerVerif.Solids
@@ -367,6 +368,42 @@ theorem bzone_sound_intersection (zs : List (BZone.Zone K × (Vec3 ℝ → Prop)
   simpa only [List.foldl_map] using this
 
 end Link
+
+/-! ### soft de-duplication (`SoftSurfaceEqual`, used by `LocalSurfaceInserter`)
+`Close se a b`: same class and EVERY coefficient group within tolerance — scalars
+|x − y| < max(abs, rel·max(|x|,|y|)) (position, displacement, zeroth, √radius², √tan²), vector groups
+‖u − v‖ < max(abs, abs·max(‖u‖,‖v‖)) (origin, second, cross, first; `abs` in the relative term AS
+WRITTEN in `soft_eq_distance`), plane normals 0 < n·n' and 1/(n·n')² − 1 ≤ rel² + ε. -/
+
+/-- ★ two surfaces compare soft-equal iff they are of the same class and every coefficient group
+    differs by at most the tolerance; in particular no group (e.g. the cross terms of a general
+    quadric) is left unconstrained -/
+theorem softEqual_implies_close (se : SoftEq ℝ) (a b : Surface ℝ) :
+    softEq se a b = true ↔ Close se a b := softEq_iff_close se a b
+
+/-- the cross terms (and likewise every other component) of two soft-equal general quadrics are
+    individually within the tolerance -/
+theorem softEqual_gq_cross_close (se : SoftEq ℝ) (a b c d e f g h i j a' b' c' d' e' f' g' h' i' j' : ℝ)
+    (hq : softEq se (.generalQuadric a b c d e f g h i j)
+      (.generalQuadric a' b' c' d' e' f' g' h' i' j') = true) :
+    |d' - d| < max se.abs (se.abs * max (nrm ⟨d, e, f⟩) (nrm ⟨d', e', f'⟩))
+    ∧ |e' - e| < max se.abs (se.abs * max (nrm ⟨d, e, f⟩) (nrm ⟨d', e', f'⟩))
+    ∧ |f' - f| < max se.abs (se.abs * max (nrm ⟨d, e, f⟩) (nrm ⟨d', e', f'⟩)) := by
+  have hc := (softEq_iff_close se _ _).mp hq
+  simp only [Close] at hc
+  exact closeV_components se ⟨d, e, f⟩ ⟨d', e', f'⟩ hc.2.1
+
+/-- `SoftSurfaceEqual` is symmetric (all classes, any tolerance) -/
+theorem softEqual_symm (se : SoftEq ℝ) (a b : Surface ℝ) : softEq se a b = softEq se b a :=
+  softEq_symm se a b
+
+/-- `SoftSurfaceEqual` is reflexive for abs > 0 on surfaces satisfying their constructor's
+    precondition (unit plane normal) -/
+theorem softEqual_refl (se : SoftEq ℝ) (habs : 0 < se.abs) (s : Surface ℝ) (hs : s.UnitNormal) :
+    softEq se s s = true := softEq_refl se habs s hs
+
+example : softEq (⟨1 / 100000, 1 / 100000⟩ : SoftEq ℝ) (.sphereCentered 4) (.sphereCentered 4) = true :=
+  softEq_refl _ (by norm_num) _ trivial
 
 /-! ### Non-vacuity -/
 example : OffSurfaces (emitBox (⟨1, 2, 3⟩ : Vec3 ℝ)) ⟨0, 0, 0⟩ := by
